@@ -36,7 +36,7 @@ DevBuild == {[dev |-> "D_codec_bytes_repeated", kind |-> "build", diag |-> "type
              [dev |-> "D_ts_dup_url", kind |-> "load", diag |-> "redeclared"],
              [dev |-> "D_client_helper_dup", kind |-> "build", diag |-> "redeclared"],
              [dev |-> "D_server_helper_dup", kind |-> "build", diag |-> "redeclared"],
-             [dev |-> "D_vet_oneof_errorf", kind |-> "vet", diag |-> "other"]}
+             [dev |-> "D_service_files_share_package", kind |-> "build", diag |-> "redeclared"]}
 
 AnyField(s, P(_)) == \E m \in GenMsgs(s) : \E f \in Range(m.fields) : P(f)
 GenServices(s) == UNION {Range(f.services) : f \in GenFiles(s)}
@@ -70,7 +70,10 @@ DevGuard(d, s, subset) ==
          /\ "go-http" \in subset
          /\ \E f \in GenFiles(s) : \E i, j \in 1..Len(f.services) :
                i # j /\ \E a \in Range(f.services[i].methods), b \in Range(f.services[j].methods) : a.name = b.name
-    [] d = "D_vet_oneof_errorf" -> \E m \in GenMsgs(s) : \E o \in Range(m.oneofs) : o.hasCfg
+    [] d = "D_service_files_share_package" ->
+         /\ subset \cap {"go-http", "go-client"} # {}
+         /\ \E i, j \in DOMAIN s.files : LET a == s.files[i] b == s.files[j] IN
+               i # j /\ a.generate /\ b.generate /\ a.goPkg = b.goPkg /\ Len(a.services) > 0 /\ Len(b.services) > 0
     [] OTHER -> FALSE
 
 GoPlugins == {"go-http", "go-client"}
@@ -158,12 +161,14 @@ MultiFeatureMsg(s) == \E m \in GenMsgs(s) : Cardinality(CodecFeaturesOf(m)) >= 2
 
 \* a build / vet / load failure is tolerated only under a listed deviation whose guard holds and
 \* whose diagnostic class matches
+\* (written as an equation so that TLC evaluates it as a value: inside an action a bare \E yields one
+\* successor per witness)
 Tolerated(kind, subset, diag) ==
-  \/ "D_dup_marshaljson" \in Dev /\ kind = "build" /\ MultiFeatureMsg(schema) /\ diag = "redeclared"
-  \/ \E d \in DevBuild : d.dev \in Dev /\ d.kind = kind /\ d.diag = diag /\ DevGuard(d.dev, schema, subset)
+  TRUE = (\/ "D_dup_marshaljson" \in Dev /\ kind = "build" /\ MultiFeatureMsg(schema) /\ diag = "redeclared"
+          \/ \E d \in DevBuild : d.dev \in Dev /\ d.kind = kind /\ d.diag = diag /\ DevGuard(d.dev, schema, subset))
 
 NoDupDecls(subset, dups) ==
-  "C13" \in Enforce => (subset \subseteq accepted => (dups = {} \/ \A d \in dups : Tolerated("build", subset, "redeclared")))
+  "C13" \in Enforce => (subset \subseteq accepted => (dups = {} \/ Tolerated("build", subset, "redeclared")))
 Builds(kind, subset, ok, diag) ==
   "C13" \in Enforce => (subset \subseteq accepted => (ok \/ Tolerated(kind, subset, diag)))
 Instrument == UNCHANGED pvars
